@@ -96,6 +96,7 @@ struct query {
 	unsigned short id2;
 	struct sockaddr_storage from2;
 	socklen_t fromlen2;
+	char name2[QUERY_NAME_SIZE];
 };
 
 enum connection {
